@@ -6,6 +6,7 @@ LEAN_TB = [
     "Lean 4.33.0 kernel (axioms per theorem audited on every run: subset of propext, Classical.choice, Quot.sound)",
     "theorem statements in lean/AtreeProofs/Props/*.lean (pinned in lean/obligations.json)",
     "harness/cmd/extract (go/ast constant and fact extractor, ~500 lines), cross-checked against the compiled package",
+    "harness/cmd/gotrans (go/ast -> Lean translator of the decision layer with Go's fixed-width semantics, VIEW tables in targets.go; its output Gen/Trans.lean is regenerated on every run and proved equal to the hand-written model by TransEq.*)",
     "correspondence harness (harness/cmd/trace, lean/Driver.lean, dump renderers on both sides)",
 ]
 
